@@ -59,8 +59,8 @@ def run(pid, tier, seed, replay=None):
         if g is None:
             continue
         corpus.append((g, strict))
-    for _ in range(ngr // 3):
-        g = gen.family_grammar(rng)
+    for gi in range(max(ngr // 3, 2 * len(gen.FAMILIES))):
+        g = gen.family_grammar(rng, fam=gen.FAMILIES[gi % len(gen.FAMILIES)])
         if g.well_formed(True):
             corpus.append((g, True))
     nested = []
